@@ -49,7 +49,16 @@ fn error_insert_model<T, S, A: std::alloc::Allocator>(_s: &mut std::collections:
 }
 
 fn duplicates(n: usize, kinds: [u8; NM]) {
-    let sc = draw(&mut KSrc);
+    let mut sc = draw(&mut KSrc);
+    // only the LAST member's name is solver-chosen; the earlier ones are pinned to distinct
+    // names (BTreeMap insertion with several if-then-else keys does not finish in CBMC)
+    let mut p = 0;
+    while p + 1 < n {
+        let pin = p % 2 == 1;
+        kani::assume(sc.name_b[p] == pin);
+        sc.name_b[p] = pin;
+        p += 1;
+    }
     let mut mt = Vec::with_capacity(NM);
     let mut i = 0;
     while i < n {
